@@ -212,6 +212,7 @@ Definition definer (m : mixin) (s : stage) : option mixin :=
   | SDisassemble, ExportMixinAppTrustZoneCertBlock => Some ExportMixinAppTrustZoneCertBlock
   | SDisassemble, ExportMixinAppCertBlockManifest => Some ExportMixinAppCertBlockManifest
   | SDisassemble, ExportMixinAppBcaFcf => Some ExportMixinAppBcaFcf
+  | SDisassemble, ExportMixinAppFcf => Some ExportMixinAppFcf
   | SDisassemble, ExportMixinAppTrustZoneCertBlockEncrypt => Some ExportMixinAppTrustZoneCertBlockEncrypt
   | SEncrypt, ExportMixinAppTrustZoneCertBlockEncrypt => Some ExportMixinAppTrustZoneCertBlockEncrypt
   | SPostEncrypt, ExportMixinAppTrustZoneCertBlockEncrypt => Some ExportMixinAppTrustZoneCertBlockEncrypt
@@ -278,36 +279,32 @@ Definition table_export (es : list entry) (start : Z) : res (list N) :=
 Definition table_len (es : list entry) : Z :=
   match table_export es 0 with Ok b => zlen b | Err _ => 0 end.
 
-(* MultipleImageEntry.parse(d): the entry is read from the FIRST 16 bytes of d *)
-Definition entry_parse (d : list N) : res entry :=
-  if Nat.ltb (length d) 16 then Err E_CRASH        (* struct.error *)
-  else let src := rd32 0 d in let dst := rd32 4 d in let size := rd32 8 d in let fl := rd32 12 d in
-       if zlen d <? src + size then Err E_REJECT
-       else if negb (fl =? G_LTI_LOAD) then Err E_REJECT
-       else Ok {| e_img := sub d (natz src) (natz (src + size)); e_dst := dst; e_flags := fl |}.
-Fixpoint entries_parse (fuel : nat) (n : nat) (data : list N) : res (list entry) :=
-  match fuel with
+(* MultipleImageTable.parse(data) (mbi_classes.py): header = last 16 bytes (marker, version, n, pointer to the entry table);
+   None when there is no marker, n = 0, or the entry table does not end where the header starts;
+   entry k is read at pointer + 16 k: (src, dst, size, flags), image = data[src : src+size] *)
+Fixpoint entries_parse (n k : nat) (start : Z) (data : list N) : res (list (entry * Z)) :=
+  match n with
   | O => Ok []
-  | S f => bind (entry_parse (firstn (length data - 16 * (1 + n)) data)) (fun e =>
-           bind (entries_parse f (S n) data) (fun r => Ok (e :: r)))
+  | S n' =>
+      let off := (natz start + 16 * k)%nat in
+      let e := sub data off (off + 16) in
+      let src := rd32 0 e in let dst := rd32 4 e in let size := rd32 8 e in let fl := rd32 12 e in
+      if start <? src + size then Err E_REJECT
+      else if negb (fl =? G_LTI_LOAD) then Err E_REJECT
+      else bind (entries_parse n' (S k) start data) (fun r =>
+           Ok (({| e_img := sub data (natz src) (natz (src + size)); e_dst := dst; e_flags := fl |}, src) :: r))
   end.
-(* MultipleImageTable.parse(data) : None when no marker; entries parsed for n = 0 .. n_entries-1 *)
-Definition MAX_ENTRIES : Z := 4096.
 Definition table_parse (data : list N) : res (option (list entry * Z)) :=
   if Nat.ltb (length data) 16 then Err E_CRASH
   else let h := take_last 16 data in
        if negb ((rd32 0 h =? RELOC_MARKER) && (rd32 4 h =? 0)) then Ok None
-       else let n := rd32 8 h in
-            if MAX_ENTRIES <? n then Err E_HANG      (* out of the model's fuel; never with a valid image *)
-            else bind (entries_parse (natz n) 0 data) (fun es => Ok (Some (es, rd32 12 h))).
-(* Mbi_MixinRelocTable.disassembly_app_data *)
-Definition disassembly_app_data (data : list N) : res (list N * option (list entry)) :=
-  bind (table_parse data) (fun r =>
-  match r with
-  | None => Ok (data, None)
-  | Some (es, start) => Ok (firstn (natz start) data, Some es)
-  end).
-
+       else let n := rd32 8 h in let start := rd32 12 h in
+            if (n =? 0) || negb (start + n * 16 + 16 =? zlen data) then Ok None
+            else bind (entries_parse (natz n) 0 start data) (fun es =>
+                 match es with
+                 | [] => Ok None
+                 | (_, src0) :: _ => Ok (Some (map fst es, src0))    (* start_address := entries[0].src_addr *)
+                 end).
 (* ------------------------------------------------------------------ lengths (mbi.py:299-331) *)
 Definition hash_size (alg : Z) : Z := if alg =? 1 then 32 else if alg =? 2 then 48 else if alg =? 3 then 64 else 0.
 Definition manifest_flags (dg : Z) : Z := if dg =? 0 then 0 else Z.lor G_MANIFEST_DIGEST_PRESENT_FLAG dg.
@@ -377,6 +374,14 @@ Definition get_flags (data : list N) : Z := rd32 OFF_FLAGS data.
 Definition get_cert_block_offset (c : mbi_class) (data : list N) : res Z :=
   bind (check_total_length c data) (fun _ => Ok (rd32 OFF_CRC data)).
 Definition flag_set (data : list N) (f : Z) : bool := negb (Z.land (get_flags data) f =? 0).
+(* Mbi_MixinRelocTable.disassembly_app_data: a table is looked for only when the image flags announce it *)
+Definition disassembly_app_data (c : mbi_class) (data : list N) : res (list N * option (list entry)) :=
+  if has_attr c AIvtTable && negb (flag_set data G_RELOC_TABLE_FLAG) then Ok (data, None)
+  else bind (table_parse data) (fun r =>
+       match r with
+       | None => Ok (data, None)
+       | Some (es, start) => Ok (firstn (natz start) data, Some es)
+       end).
 
 (* ------------------------------------------------------------------ validate (mix_validate of every mixin) *)
 Definition mix_validate (c : mbi_class) (x : mbi) (m : mixin) : res unit :=
@@ -536,10 +541,11 @@ Definition hmac_block (x : mbi) (hm : list N) : image :=
   [hm] ++ (match m_ks x with Some ksb => [ksb] | None => [] end).
 Fixpoint offsets_from (im : image) (off : nat) : list nat :=
   match im with [] => [] | s :: t => off :: offsets_from t (off + length s) end.
-Fixpoint hmac_insert_between (x : mbi) (hm : list N) (im : image) (off : nat) : image :=
+Fixpoint hmac_insert_between (x : mbi) (hm : list N) (im : image) (off : nat) (inserted : bool) : image :=
   match im with
   | [] => []
-  | s :: t => (if Nat.eqb off HMAC_OFF then hmac_block x hm else []) ++ [s] ++ hmac_insert_between x hm t (off + length s)
+  | s :: t => let here := Nat.eqb off HMAC_OFF && negb inserted in
+              (if here then hmac_block x hm else []) ++ [s] ++ hmac_insert_between x hm t (off + length s) (inserted || here)
   end.
 Fixpoint hmac_insert_split (x : mbi) (hm : list N) (im : image) (off : nat) : image :=
   match im with
@@ -554,9 +560,11 @@ Definition finalize (k : crypto) (c : mbi_class) (x : mbi) (im : image) (dts : l
   match provider c SFinalize with
   | Some ExportMixinHmacKeyStoreFinalize =>
       let raw := flat im in
+      if app_len c x <? Z.of_nat HMAC_OFF then Err E_REJECT    (* "The application must have at least 64 bytes ..." *)
+      else
       let hm := match m_hmac x with Some (kb :: kt) => k_hmac k (kb :: kt) (firstn HMAC_OFF raw) | _ => [] end in
       if existsb (Nat.eqb HMAC_OFF) (offsets_from im 0)
-      then Ok (hmac_insert_between x hm im 0)
+      then Ok (hmac_insert_between x hm im 0 false)
       else Ok (hmac_insert_split x hm im 0)
   | Some ExportMixinAppCertBlockManifest =>
       (* manifest and manifest.flags and DIGEST_PRESENT_FLAG (a non-zero constant) and digest_hash_algo is not None *)
@@ -639,7 +647,7 @@ Definition mix_parse (c : mbi_class) (tzsize sigsz : nat) (dek : option (list N)
              | None => Err E_CRASH                (* assert isinstance(self.cert_block, ...) *)
              | Some cb =>
                  bind (get_cert_block_offset c data) (fun off =>
-                 let o := natz (off + Z.of_nat (cert_size cb)) in
+                 let o := natz (off + Z.of_nat (cert_size cb) + hmac_ks_shift c data) in
                  bind (tz_from_binary tzsize (sub data o (o + tzsize))) (fun t' => Ok (set_tz st t')))
              end
         else bind (tz_from_binary tzsize (match tzsize with O => data | _ => take_last tzsize data end))
@@ -661,7 +669,7 @@ Definition mix_parse (c : mbi_class) (tzsize sigsz : nat) (dek : option (list N)
           bind (get_cert_block_offset c data) (fun off =>
           bind (manifest_parse c tzsize (skipn (natz (off + zlen b)) data)) (fun r =>
           let '(fw, t, a) := r in
-          Ok (set_manifest st fw (match t with Some t' => t' | None => TzDisabled end) a)))
+          Ok (set_manifest st fw (match t with Some t' => t' | None => TzEnabled end) a)))
       | _ => Err E_CRASH                           (* assert isinstance(self.cert_block, CertBlockV21) *)
       end
   | MixinCertBlockV1 =>
@@ -694,17 +702,16 @@ Definition mix_parse (c : mbi_class) (tzsize sigsz : nat) (dek : option (list N)
   | _ => Ok st
   end.
 
-(* one round of the loop in MasterBootImage.parse: every mixin of the round is parsed; a mixin whose PRE_PARSED member
-   (cert_block) is still None is ALSO queued for the next round (the `continue` only leaves the inner loop) *)
+(* one round of the loop in MasterBootImage.parse: a mixin whose PRE_PARSED member (cert_block) is still None is queued
+   for the next round and NOT parsed now; a round that parses nothing ends with SPSDKParsingError *)
 Fixpoint parse_round (c : mbi_class) (tzsize sigsz : nat) (dek : option (list N)) (data : list N)
                      (l : list mixin) (st : mbi) : res (mbi * list mixin) :=
   match l with
   | [] => Ok (st, [])
   | m :: t =>
       let waits := pre_parsed_cert m && has_attr c ACertBlock && (match m_cert st with None => true | Some _ => false end) in
-      bind (mix_parse c tzsize sigsz dek data m st) (fun st' =>
-      bind (parse_round c tzsize sigsz dek data t st') (fun r =>
-      Ok (fst r, if waits then m :: snd r else snd r)))
+      if waits then bind (parse_round c tzsize sigsz dek data t st) (fun r => Ok (fst r, m :: snd r))
+      else bind (mix_parse c tzsize sigsz dek data m st) (fun st' => parse_round c tzsize sigsz dek data t st')
   end.
 Fixpoint parse_rounds (fuel : nat) (c : mbi_class) (tzsize sigsz : nat) (dek : option (list N)) (data : list N)
                       (l : list mixin) (st : mbi) : res mbi :=
@@ -713,7 +720,8 @@ Fixpoint parse_rounds (fuel : nat) (c : mbi_class) (tzsize sigsz : nat) (dek : o
   | _ => match fuel with
          | O => Err E_HANG
          | S f => bind (parse_round c tzsize sigsz dek data l st) (fun r =>
-                  parse_rounds f c tzsize sigsz dek data (snd r) (fst r))
+                  if Nat.eqb (length (snd r)) (length l) then Err E_REJECT
+                  else parse_rounds f c tzsize sigsz dek data (snd r) (fst r))
          end
   end.
 
@@ -769,7 +777,7 @@ Definition encrypt_revert (k : crypto) (c : mbi_class) (st : mbi) (d : list N) :
 
 Definition reloc_cut (c : mbi_class) (st : mbi) (d : list N) : res (mbi * list N) :=
   match provider c SDisassemblyAppData with
-  | Some _ => bind (disassembly_app_data d) (fun r => Ok (set_table st (snd r), fst r))
+  | Some _ => bind (disassembly_app_data c d) (fun r => Ok (set_table st (snd r), fst r))
   | None => Ok (st, d)
   end.
 Definition finish_app (c : mbi_class) (st : mbi) (d : list N) : mbi :=
